@@ -36,6 +36,11 @@ type LoDesc struct {
 	// ReadSize is the transport read size (0 = default); Banner is printed together with the option
 	// negotiation, before the user-name prompt (so it is part of what the transport has in hand when
 	// the negotiation is over, and may well be larger than one read).
+	// QuietMS: the line says nothing at all for this long after the connection is made (0.15-0.5 x
+	// TimeoutOps); whatever is typed ahead meanwhile is read afterwards, and echoed or not according to
+	// the state the login program is in when it reads it. An empty user name makes the login program
+	// (after its usual moment) ask again.
+	QuietMS  int      `json:"quiet_ms,omitempty"`
 	ReadSize int      `json:"read_size,omitempty"`
 	Banner   []string `json:"banner,omitempty"`
 }
@@ -50,8 +55,12 @@ func GenLo(r *rand.Rand, idx int) LoDesc {
 		banner = append(banner, []string{"*** authorized access only ***", "unit 7, uptime 12 days, load 0.10 0.08 0.01", "", "maintenance window tonight 22.00 - 23.00",
 			"all activity on this system is logged and monitored", "contact the noc at ext 4711 before changing anything"}[r.Intn(6)])
 	}
-	return LoDesc{ReadSize: []int{0, 0, 16, 32, 64, 256, 8192}[r.Intn(7)], Banner: banner, Discipline: c[0], RC: c[1], User: []string{"admin", "netops", "u1"}[r.Intn(3)], Password: "pw" + randStr(r, secretAlpha, 6+r.Intn(8)),
-		Rejects: (idx / len(combos)) % 2, DelayMS: 15 + r.Intn(30), Negotiate: r.Intn(2) == 0,
+	quiet := 0
+	if idx%4 == 3 {
+		quiet = 600 + r.Intn(1400) // TimeoutOps is 4 s
+	}
+	return LoDesc{QuietMS: quiet, ReadSize: []int{0, 0, 16, 32, 64, 256, 8192}[r.Intn(7)], Banner: banner, Discipline: c[0], RC: c[1], User: []string{"admin", "netops", "u1"}[r.Intn(3)], Password: "pw" + randStr(r, secretAlpha, 6+r.Intn(8)),
+		Rejects: (idx / len(combos)) % 2, DelayMS: 15 + r.Intn(30), Negotiate: r.Intn(2) == 0 && quiet == 0,
 		UserPrompt: []string{"Username: ", "login: ", h + " login: "}[r.Intn(3)], PassPrompt: []string{"Password: ", "password:"}[r.Intn(2)],
 		Prompt: h + []string{"#", "# ", ">"}[r.Intn(3)], Cmd: "show lo!"}
 }
@@ -85,6 +94,9 @@ func (s *loServer) serve() {
 	}
 	defer conn.Close()
 	d := s.d
+	if d.QuietMS > 0 {
+		time.Sleep(time.Duration(d.QuietMS) * time.Millisecond)
+	}
 	if d.Negotiate {
 		conn.Write([]byte{255, 251, 1, 255, 251, 3, 255, 253, 24}) // WILL ECHO, WILL SGA, DO TERMINAL-TYPE
 	}
@@ -107,6 +119,12 @@ func (s *loServer) serve() {
 		next := st
 		switch st {
 		case StWantUser:
+			if l == "" {
+				// no name given: ask again
+				time.Sleep(time.Duration(d.DelayMS) * time.Millisecond)
+				conn.Write([]byte("\r\n" + d.UserPrompt))
+				break
+			}
 			user = l
 			conn.Write([]byte("\r\n" + d.PassPrompt))
 			next = StWantPass
@@ -296,6 +314,9 @@ func RunTelnetLo(d LoDesc, h *Hooks) (mon.Result, *Info) {
 	early := len(d.UserPrompt) + 30
 	for _, l := range d.Banner {
 		early += len(l) + 2
+	}
+	if d.QuietMS > 0 {
+		obs["telnet_logins_on_initially_silent_line"] = 1
 	}
 	if d.ReadSize > 0 && early > d.ReadSize {
 		obs["telnet_early_bytes_larger_than_read_size"] = 1
